@@ -52,7 +52,7 @@ mut("c01_writer_loses_byte_at_boundary_armored", "C01", "stream Writer drops the
 # ---------------- C02 ----------------
 mut("c02_revert_fix_trailing_with_eof", "C02", "reverts fix 6401ece: trailing byte delivered together with io.EOF is not seen",
  [("internal/stream/stream.go", """		if n, err := r.src.Read(make([]byte, 1)); n > 0 || err == nil {""", """		if _, err := r.src.Read(make([]byte, 1)); err == nil {""")])
-mut("c02_counter_carry_lost", "C02", "chunk counter increments only its lowest byte: counter wraps after 256 chunks (nonce reuse, chunk 256 == chunk 0 nonce)",
+mut("c06_counter_carry_lost", "C06", "chunk counter increments only its lowest byte: counter wraps after 256 chunks (nonce reuse, chunk 256 == chunk 0 nonce)",
  [("internal/stream/stream.go", """	for i := len(nonce) - 2; i >= 0; i-- {
 		nonce[i]++
 		if nonce[i] != 0 {
@@ -95,8 +95,6 @@ mut("c03_mac_over_first_stanza_when_many", "C03", "header MAC is skipped for sta
 
 	nonce := make([]byte, streamNonceSize)
 	if _, err := io.ReadFull(payload, nonce); err != nil {""")])
-mut("c03_arg_trailing_equals_trimmed", "C03", "stanza arguments have base64 padding trimmed before decoding in X25519 unwrap",
- [("x25519.go", """	publicKey, err := format.DecodeString(block.Args[0])""", """	publicKey, err := format.DecodeString(strings.TrimRight(block.Args[0], "="))""")])
 
 # ---------------- C05 ----------------
 mut("c05_ed25519_tweak_dropped_both_sides", "C05", "ssh-ed25519 tweak dropped in Wrap and unwrap (symmetric: round trips still work)",
@@ -210,10 +208,6 @@ mut("c08_revert_fix_close_without_write", "C08", "reverts fix 78e3772: Close wit
 		a.started = true
 	}
 """, "")])
-mut("c08_trailing_ws_bound_off", "C08", "trailing whitespace bound off by one page: up to 2048 bytes tolerated",
- [("armor/armor.go", """	const maxWhitespace = 1024
-	drainTrailing""", """	const maxWhitespace = 2048
-	drainTrailing""")])
 mut("c08_header_trailing_space_tolerated", "C08", "BEGIN line compared after trimming spaces",
  [("armor/armor.go", """		if string(line) != Header {""", """		if string(bytes.TrimRight(line, " ")) != Header {""")])
 mut("c08_nonstrict_base64_last_line", "C08", "non-strict base64 decoding (non-zero trailing bits accepted)",
@@ -314,76 +308,6 @@ mut("c12_parse_drops_overread_for_small_bufio", "C12", "Parse hands back the cal
 	if _, ok := input.(*bufio.Reader); ok {
 		return h, input, nil
 	}""")])
-mut("c12_writer_buffers_two_chunks", "C12", "Writer keeps a full chunk back until a second one is complete (holds back up to 128 KiB)",
- [("internal/stream/stream.go", """func (w *Writer) Write(p []byte) (n int, err error) {
-	// TODO: consider refactoring with a bytes.Buffer.
-	if w.err != nil {
-		return 0, w.err
-	}
-	if len(p) == 0 {
-		return 0, nil
-	}
-""", """func (w *Writer) Write(p []byte) (n int, err error) {
-	// TODO: consider refactoring with a bytes.Buffer.
-	if w.err != nil {
-		return 0, w.err
-	}
-	if len(p) == 0 {
-		return 0, nil
-	}
-	if len(w.pending)+len(p) <= ChunkSize && !w.flushedPending {
-		w.pending = append(w.pending, p...)
-		return len(p), nil
-	}
-	if !w.flushedPending {
-		w.flushedPending = true
-		q := append(w.pending, p...)
-		w.pending = nil
-		return w.write(q, len(p))
-	}
-	return w.write(p, len(p))
-}
-
-func (w *Writer) write(p []byte, report int) (n int, err error) {
-"""),
-  ("internal/stream/stream.go", """	return total, nil
-}
-
-// Close flushes the last chunk. It does not close the underlying Writer.
-func (w *Writer) Close() error {
-	if w.err != nil {
-		return w.err
-	}
-""", """	_ = total
-	return report, nil
-}
-
-// Close flushes the last chunk. It does not close the underlying Writer.
-func (w *Writer) Close() error {
-	if w.err != nil {
-		return w.err
-	}
-	if !w.flushedPending && len(w.pending) > 0 {
-		w.flushedPending = true
-		q := w.pending
-		w.pending = nil
-		if _, err := w.write(q, len(q)); err != nil {
-			return err
-		}
-	}
-"""),
-  ("internal/stream/stream.go", """	nonce     [chacha20poly1305.NonceSize]byte
-	err       error
-}
-
-func NewWriter""", """	nonce     [chacha20poly1305.NonceSize]byte
-	err       error
-
-	pending        []byte
-	flushedPending bool
-}
-
-func NewWriter""")])
 
 # ---------------- C13 ----------------
 mut("c13_close_drops_flush_error", "C13", "error of the final chunk write dropped on Close",
@@ -438,10 +362,6 @@ mut("c15_revert_fix_keygen_write_errors", "C15", "reverts part of fix 35e88ab (c
  [("cmd/age-keygen/keygen.go", """		if _, err := fmt.Fprintf(out, "%s\\n", id.Recipient()); err != nil {
 			errorf("failed to write output: %v", err)
 		}""", """		fmt.Fprintf(out, "%s\\n", id.Recipient())""")])
-mut("c15_same_file_check_without_abs", "C15", "output/input same-file check compares the names as spelled",
- [("cmd/age/age.go", """		for _, f := range inUseFiles {
-			if f == absPath(name) {""", """		for _, f := range inUseFiles {
-			if f == name || f == absPath(filepath.Base(name)) && filepath.Dir(name) == "." {""")])
 mut("c15_output_opened_eagerly", "C15", "-o file is created before the header is accepted",
  [("cmd/age/age.go", """func newLazyOpener(name string) io.WriteCloser {
 	return &lazyOpener{name: name}
@@ -452,10 +372,6 @@ mut("c15_output_opened_eagerly", "C15", "-o file is created before the header is
 	}
 	return l
 }""")])
-mut("c15_close_error_ignored", "C15", "error of closing the output file is ignored",
- [("cmd/age/age.go", """			if err := f.Close(); err != nil {
-				errorf("failed to close output file %q: %v", name, err)
-			}""", """			f.Close()""")])
 mut("c15_copy_error_ignored_on_decrypt", "C15", "decrypt ignores write errors of io.Copy when the error is a path error",
  [("cmd/age/age.go", """	if _, err := io.Copy(out, r); err != nil {
 		errorf("%v", err)
@@ -642,6 +558,55 @@ mut("c20_rsa_lazy_fingerprint_cache", "C20", "RSAIdentity caches its tag lazily 
 
 	fileKey, err := rsa.DecryptOAEP(""")])
 
+mut("c12_writer_behind_256k_bufio", "C12", "the stream Writer sits on a 256 KiB bufio.Writer flushed on Close: up to four chunks of ciphertext are held back",
+ [("internal/stream/stream.go", """	w := &Writer{
+		a:   aead,
+		dst: dst,
+	}
+	w.unwritten = w.buf[:0]
+	return w, nil""", """	bw := bufio.NewWriterSize(dst, 256*1024)
+	w := &Writer{
+		a:   aead,
+		dst: bw,
+		bw:  bw,
+	}
+	w.unwritten = w.buf[:0]
+	return w, nil"""),
+  ("internal/stream/stream.go", """	w.err = w.flushChunk(lastChunk)
+	if w.err != nil {
+		return w.err
+	}
+""", """	w.err = w.flushChunk(lastChunk)
+	if w.err == nil {
+		w.err = w.bw.Flush()
+	}
+	if w.err != nil {
+		return w.err
+	}
+"""),
+  ("internal/stream/stream.go", """	nonce     [chacha20poly1305.NonceSize]byte
+	err       error
+}
+
+func NewWriter""", """	nonce     [chacha20poly1305.NonceSize]byte
+	err       error
+	bw        *bufio.Writer
+}
+
+func NewWriter"""),
+  ("internal/stream/stream.go", """import (
+	"crypto/cipher"
+""", """import (
+	"bufio"
+	"crypto/cipher"
+""")])
+mut("c15_same_file_check_cleans_instead_of_abs", "C15", "the -o name is only cleaned, not made absolute, before it is compared with the files in use",
+ [("cmd/age/age.go", """			if f == absPath(name) {""", """			if f == filepath.Clean(name) {""")])
+mut("c03_mac_skipped_for_single_scrypt_stanza", "C03", "header MAC not verified for passphrase files (\"the scrypt stanza authenticates itself\")",
+ [("age.go", """	} else if !hmac.Equal(mac, hdr.MAC) {""", """	} else if !hmac.Equal(mac, hdr.MAC) && !(len(stanzas) == 1 && stanzas[0].Type == "scrypt") {""")])
+mut("c08_crlf_tolerated_twice", "C08", "getLine trims any number of trailing CRs",
+ [("armor/armor.go", """		line = bytes.TrimSuffix(line, []byte("\\r"))""", """		line = bytes.TrimRight(line, "\\r")""")])
+
 def sh(cmd, cwd=None, timeout=1200):
     return subprocess.run(cmd, shell=True, cwd=cwd, env=ENV, capture_output=True, text=True, timeout=timeout)
 
@@ -653,6 +618,8 @@ def main():
     if r.returncode != 0:
         print(r.stderr); sys.exit(2)
     results = {}
+    if only and os.path.exists(os.path.join(OUT, "BUILD_RESULTS.json")):
+        results = json.load(open(os.path.join(OUT, "BUILD_RESULTS.json")))
     try:
         for name, prop, why, edits in M:
             if only and name not in only and prop not in only:
